@@ -32,6 +32,7 @@ def points : (s : Shape) → St s → List (List (Nat × TagSet))
   | .deco c, st => points c st
   | .tagger _ _ c, st => points c st
   | .fsink _ _ _, st => [addsOf st.log]
+  | .sff, _ => []        -- (no observer behind a bare `StreamFailFast`)
   | .tfr c, (_, inner) => points c inner
   | .multi cs, (_, inner) => pointsL cs inner
   | .e2s c, (own, inner) => own.sent :: points c inner
